@@ -4,7 +4,7 @@ C09 — An integer weights column is equivalent to replicating rows (point estim
 Subject: the estimator models executed by the native driver — `ZV.Std.hajek ∘ iptwOmega` (IPTW, the six
 generated weight formulas, with inverse-probability-of-missingness weights), `stochIptw` (StochasticIPTW),
 `gformula` (TimeFixedGFormula, each standardization target), `survMarginal` (SurvivalGFormula),
-`aipw1/aipw0`, `aipwDiff`, `aipwArmMean` (AIPTW, also with missing outcomes), `snmLhs/snmRhs/snmPsi1`
+`aipw1/aipw0`, `aipwDiffW`, `aipwArmMean` (AIPTW, also with missing outcomes), `snmLhs/snmRhs/snmPsi1`
 (GEstimationSNM closed form), `gtransport` (GTransportFormula) and the closed form `std` — evaluated on
 `weighted l` (each row once with its integer weight: what zEpid sees with `weights='w'`) and on
 `replicated l` (each row physically repeated, no weights column).
@@ -150,10 +150,10 @@ theorem aipw_replicate (l : List (Row F × Nat)) (Q : Row F → Bool → F) (g1 
     NaN-skipping mean of the difference and the NaN-skipping arm means -/
 theorem aipw_missing_replicate (l : List (Row F × Nat)) (Q : Row F → Bool → F) (g1 g0 : Row F → F) (hQ : WFree Q)
     (h1 : WFree g1) (h0 : WFree g0) :
-    aipwDiff (weighted l) Q g1 g0 = aipwDiff (replicated l) Q g1 g0 ∧
+    aipwDiffW (weighted l) Q g1 g0 = aipwDiffW (replicated l) Q g1 g0 ∧
     ∀ arm, aipwArmMean arm (weighted l) Q g1 g0 = aipwArmMean arm (replicated l) Q g1 g0 := by
   constructor
-  · unfold aipwDiff
+  · unfold aipwDiffW
     have h : WFree (fun r => aipwPseudo true Q g1 g0 r - aipwPseudo false Q g1 g0 r) := by
       intro r c
       show aipwPseudo true Q g1 g0 (r.setW c) - aipwPseudo false Q g1 g0 (r.setW c) = _
